@@ -119,6 +119,15 @@ def corrupt(c, rng):
     return kind, desc, arrays, kw, must_fail
 
 
+# template kinds that break one stated rule of their operation and nothing else: rejected with einx.errors.SemanticError
+SEMANTIC_RULES = {
+    "dot_contracted_in_three_inputs", "dot_contracted_in_one_input", "dot_single_input", "get_at_two_marked_coordinate_axes", "get_at_coordinate_count",
+    "get_at_single_input", "sort_needs_exactly_one_bracket", "update_at_two_marked_coordinate_axes", "update_at_target_axis_marked_in_updates",
+    "update_at_coordinate_count", "argfind_two_marked_outputs", "argfind_marked_count", "duplicate_vectorized_output_axis", "missing_output",
+    "implicit_output_ambiguous", "preserve_output_brackets_differ",
+}
+
+
 def rule_breaking(rng):
     """calls that are well-formed as text and consistent in sizes but break one stated rule of their operation
     (einx_from_namedtensor.py: _semantic_checks_*, bracket placement): all must be rejected -> (kind, fn, desc, arrays, kw)"""
@@ -200,6 +209,13 @@ def rule_breaking(rng):
         ("kw_ellipsis_rank_mismatch", "mean", f"{C} [{A}...] {D}", [np.zeros((4,))], {A: 2}),
         ("kw_ellipsis_rank_mismatch", "add", f"{A}..., {A}... -> {A}...", [np.zeros((4, 4)), np.zeros((4, 4, 4))], {A: 4}),
     ]
+    # a size that is no positive integer, given under a name the description does not use: still an invalid call
+    out += [
+        ("kw_unused_name_invalid_value", "id", f"{A} {B} -> {B} {A}", [z(A, B)], {Q: -1}),
+        ("kw_unused_name_invalid_value", "sum", f"{A} [{B}]", [z(A, B)], {Q: 2.5}),
+        ("kw_unused_name_invalid_value", "solve_axes", f"{A} {B}", [z(A, B)], {Q: [1, -2]}),
+        ("kw_unused_name_invalid_value", "add", f"{A} {B}, {B}", [z(A, B), z(B)], {Q: -3}),
+    ]
     # the same rule-breaking updates with empty coordinate / update tensors: still ill-formed, still to be rejected
     out += [
         ("empty_update_marked_sets_differ", "set_at", f"[{H}] {C}, {P}, {P} {C} -> [{W}] {C}", [z(H, C), zi(0), z(0, C)], {}),
@@ -248,6 +264,9 @@ def _work(item):
     elif o == "value":
         if must_fail:
             out.append(({"kind": "ill_formed_call_returns_value", "corruption": what, "fn": fn}, rec))
+    elif what.startswith("rule:") and what[5:] in SEMANTIC_RULES and o != "SemanticError" and o not in ("OperationNotSupportedError",) and not o.startswith("INTERNAL"):
+        # a call that breaks a stated rule of its operation is rejected as such, not by whatever fails first further down
+        out.append(({"kind": "rule_violation_reported_as_another_error", "corruption": what, "fn": fn, "exc": o}, {**rec, "message": r.get("message")}))
     elif o == "CallOperationError":
         out.append(({"kind": "rejected_only_at_run_time", "corruption": what, "fn": fn,
                      "runtime_error": "read_only_array" if "read-only" in (r.get("full_message") or "") else "other"}, {**rec, "message": r.get("message")}))
